@@ -669,3 +669,71 @@ Example C03_gen_sub_example :
 Proof. vm_compute. first [exact I | reflexivity]. Qed.
 
 End GenAgreeSubtotals_C03.
+
+(* ---- WIRING-APPENDIX:BEGIN (generated by tools/gen_wiring_props.py; do not edit) ---- *)
+From CC Require Proofs.GenAgreeWiring_C03.
+Section Wiring_C03.
+Import Coq.Lists.List Coq.ZArith.ZArith Coq.Strings.String CC.Base.WiringExp CC.Gen.WiringSrc.
+Import ListNotations.
+Local Open Scope string_scope.
+
+Theorem C03_wiring_Slice_column_percentages :
+  wsrc_Slice_column_percentages = Some (WBin "*" (WSelf "column_proportions") (WInt (100)%Z)).
+Proof. exact Proofs.GenAgreeWiring_C03.gen_wiring_Slice_column_percentages. Qed.
+Print Assumptions C03_wiring_Slice_column_percentages.
+
+Theorem C03_wiring_Slice_column_proportions :
+  wsrc_Slice_column_proportions = Some (w_matrix_of "column_proportions").
+Proof. exact Proofs.GenAgreeWiring_C03.gen_wiring_Slice_column_proportions. Qed.
+Print Assumptions C03_wiring_Slice_column_proportions.
+
+Theorem C03_wiring_Slice_columns_margin_proportion :
+  wsrc_Slice_columns_margin_proportion = Some (WIf (WUn "not" (WAttr (WAttr (WSelf "_measures")
+      "columns_table_proportion") "is_defined")) (WCall (WSelf "_assemble_matrix") [WCall (WAttr
+      (WGlobal "SumSubtotals") "blocks") [WBin "/" (WSelf "columns_margin") (WSelf
+      "table_weighted_bases"); WSelf "_dimensions"] []] []) (w_marginal_of
+      "columns_table_proportion")).
+Proof. exact Proofs.GenAgreeWiring_C03.gen_wiring_Slice_columns_margin_proportion. Qed.
+Print Assumptions C03_wiring_Slice_columns_margin_proportion.
+
+Theorem C03_wiring_Slice_row_percentages :
+  wsrc_Slice_row_percentages = Some (WBin "*" (WSelf "row_proportions") (WInt (100)%Z)).
+Proof. exact Proofs.GenAgreeWiring_C03.gen_wiring_Slice_row_percentages. Qed.
+Print Assumptions C03_wiring_Slice_row_percentages.
+
+Theorem C03_wiring_Slice_row_proportions :
+  wsrc_Slice_row_proportions = Some (w_matrix_of "row_proportions").
+Proof. exact Proofs.GenAgreeWiring_C03.gen_wiring_Slice_row_proportions. Qed.
+Print Assumptions C03_wiring_Slice_row_proportions.
+
+Theorem C03_wiring_Slice_rows_margin_proportion :
+  wsrc_Slice_rows_margin_proportion = Some (WIf (WUn "not" (WAttr (WAttr (WSelf "_measures")
+      "rows_table_proportion") "is_defined")) (WCall (WSelf "_assemble_matrix") [WCall (WAttr
+      (WGlobal "SumSubtotals") "blocks") [WBin "/" (WSelf "rows_margin") (WSelf
+      "table_weighted_bases"); WSelf "_dimensions"] []] []) (w_marginal_of
+      "rows_table_proportion")).
+Proof. exact Proofs.GenAgreeWiring_C03.gen_wiring_Slice_rows_margin_proportion. Qed.
+Print Assumptions C03_wiring_Slice_rows_margin_proportion.
+
+Theorem C03_wiring_Slice_table_percentages :
+  wsrc_Slice_table_percentages = Some (WBin "*" (WSelf "table_proportions") (WInt (100)%Z)).
+Proof. exact Proofs.GenAgreeWiring_C03.gen_wiring_Slice_table_percentages. Qed.
+Print Assumptions C03_wiring_Slice_table_percentages.
+
+Theorem C03_wiring_Slice_table_proportions :
+  wsrc_Slice_table_proportions = Some (w_matrix_of "table_proportions").
+Proof. exact Proofs.GenAgreeWiring_C03.gen_wiring_Slice_table_proportions. Qed.
+Print Assumptions C03_wiring_Slice_table_proportions.
+
+Theorem C03_wiring_Strand_table_percentages :
+  wsrc_Strand_table_percentages = Some (WBin "*" (WSelf "table_proportions") (WInt (100)%Z)).
+Proof. exact Proofs.GenAgreeWiring_C03.gen_wiring_Strand_table_percentages. Qed.
+Print Assumptions C03_wiring_Strand_table_percentages.
+
+Theorem C03_wiring_Strand_table_proportions :
+  wsrc_Strand_table_proportions = Some (w_vector_of "table_proportions").
+Proof. exact Proofs.GenAgreeWiring_C03.gen_wiring_Strand_table_proportions. Qed.
+Print Assumptions C03_wiring_Strand_table_proportions.
+
+End Wiring_C03.
+(* ---- WIRING-APPENDIX:END ---- *)
